@@ -284,6 +284,7 @@ impl StringGenerator {
                 sgr.push(48);
                 sgr.push(5);
                 sgr.push(*ext_color);
+                state.bg_idx = bg;
             } else {
                 sgr_tc.push(0);
                 sgr_tc.push(cur_back_rgb.0);
